@@ -154,6 +154,10 @@ FIXED_SPECS = [
     dict(kind="fbank", rate=500, low_hz=300.0, high_hz=None, num_filts=10, analytic=True),
     dict(kind="gabor", rate=16000, low_hz=20.0, high_hz=None, num_filts=40, scale=dict(name="mel"), l2=False, erb=False),
     dict(kind="gabor", rate=8000, low_hz=0.0, high_hz=None, num_filts=1, scale=dict(name="bark"), l2=True, erb=False),
+    # supports wider than the period: whole-period fallback
+    dict(kind="gabor", rate=8000, low_hz=0.0, high_hz=None, num_filts=1, scale=dict(name="linear", low_hz=0.0, slope_hz=1.0), l2=False, erb=False),
+    dict(kind="gabor", rate=16000, low_hz=0.0, high_hz=None, num_filts=1, scale=dict(name="linear", low_hz=0.0, slope_hz=1.0), l2=True, erb=True),
+    dict(kind="gabor", rate=2000, low_hz=100.0, high_hz=None, num_filts=2, scale=dict(name="mel"), l2=False, erb=False),
     dict(kind="gabor", rate=8000, low_hz=0.0, high_hz=None, num_filts=2, scale=dict(name="linear", low_hz=0.0, slope_hz=1.0), l2=False, erb=True),
     dict(kind="gammatone", rate=16000, low_hz=20.0, high_hz=None, num_filts=40, scale=dict(name="mel"), l2=False, erb=False, order=4, max_centered=False),
     dict(kind="gammatone", rate=8000, low_hz=0.0, high_hz=None, num_filts=1, scale=dict(name="mel"), l2=True, erb=True, order=2, max_centered=True),
@@ -531,7 +535,7 @@ def run(ctx, driver):
             continue
         t = mo.split()
         ms, ml, fb, mh = int(t[0]), int(t[1]), t[2] == "1", int(t[3])
-        ctx.count("fallback:%s" % ("taken" if fb else "not_taken"))
+        ctx.count("fallback:%s:%s" % (case["bank"]["kind"], "taken" if fb else "not_taken"))
         if mh != obs["hl"]:
             ctx.mismatch(case, mh, obs["hl"], "half length")
         if (ms, ml) != (obs["b"], obs["n"]):
